@@ -217,6 +217,12 @@ impl Client {
         big_rcvbuf(&sock);
         Client { sock, server, peer: None, sources: vec![], unguarded: false }
     }
+    /// A client bound to a given local address (e.g. another loopback address with a chosen port number).
+    pub fn bound(server: SocketAddr, local: SocketAddr) -> Option<Client> {
+        let sock = UdpSocket::bind(local).ok()?;
+        big_rcvbuf(&sock);
+        Some(Client { sock, server, peer: None, sources: vec![], unguarded: false })
+    }
     pub fn local_port(&self) -> u16 {
         self.sock.local_addr().unwrap().port()
     }
